@@ -585,64 +585,41 @@ impl Bmi2StringProcessor {
     #[cfg(target_arch = "x86_64")]
     #[target_feature(enable = "bmi1,bmi2")]
     unsafe fn wildcard_match_bmi2_impl(&self, text: &[u8], pattern: &[u8]) -> bool {
-        // Simplified wildcard matching with BMI2 acceleration
-        // Supports * and ? wildcards
-        
-        let mut text_idx = 0;
-        let mut pattern_idx = 0;
+        // Glob matching with * and ? over bytes.  The whole text must be consumed; a `*`
+        // remembers where it matched so that a false start can be retried one character later.
+        let is_cont = |b: u8| (b & 0xC0) == 0x80;
+        let (mut text_idx, mut pattern_idx) = (0usize, 0usize);
+        let mut star: Option<(usize, usize)> = None; // (pattern index behind the star, text index it covers up to)
 
-        while pattern_idx < pattern.len() && text_idx < text.len() {
-            match pattern[pattern_idx] {
-                b'*' => {
-                    // Skip consecutive asterisks
-                    while pattern_idx < pattern.len() && pattern[pattern_idx] == b'*' {
-                        pattern_idx += 1;
-                    }
-                    
-                    if pattern_idx == pattern.len() {
-                        return true; // Pattern ends with *, matches everything
-                    }
-                    
-                    // Find next matching character using BMI2
-                    let next_char = pattern[pattern_idx];
-                    while text_idx < text.len() {
-                        let current_char = if text_idx + 8 <= text.len() {
-                            let chunk = unsafe { std::ptr::read_unaligned(text.as_ptr().add(text_idx) as *const u64) };
-                            Bmi2BextrOps::extract_bits_bextr(chunk, 0, 8) as u8
-                        } else {
-                            text[text_idx]
-                        };
-                        
-                        if current_char == next_char {
-                            break;
-                        }
-                        text_idx += 1;
-                    }
-                }
-                b'?' => {
-                    // Single character wildcard
+        while text_idx < text.len() {
+            if pattern_idx < pattern.len() && pattern[pattern_idx] == b'*' {
+                pattern_idx += 1;
+                star = Some((pattern_idx, text_idx));
+            } else if pattern_idx < pattern.len()
+                && (pattern[pattern_idx] == b'?' || pattern[pattern_idx] == text[text_idx])
+            {
+                let any = pattern[pattern_idx] == b'?';
+                text_idx += 1;
+                // `?` stands for one character, not one byte
+                while any && text_idx < text.len() && is_cont(text[text_idx]) {
                     text_idx += 1;
-                    pattern_idx += 1;
                 }
-                c => {
-                    // Literal character match
-                    let text_char = if text_idx + 8 <= text.len() {
-                        let chunk = unsafe { std::ptr::read_unaligned(text.as_ptr().add(text_idx) as *const u64) };
-                        Bmi2BextrOps::extract_bits_bextr(chunk, 0, 8) as u8
-                    } else {
-                        text[text_idx]
-                    };
-                    
-                    if text_char != c {
-                        return false;
-                    }
-                    text_idx += 1;
-                    pattern_idx += 1;
+                pattern_idx += 1;
+            } else if let Some((after_star, covered)) = star {
+                // let the last star swallow one more character and try again
+                let mut next = covered + 1;
+                while next < text.len() && is_cont(text[next]) {
+                    next += 1;
                 }
+                star = Some((after_star, next));
+                pattern_idx = after_star;
+                text_idx = next;
+            } else {
+                return false;
             }
         }
 
-        // Check if we consumed all of pattern
+        // Only stars may be left in the pattern
         while pattern_idx < pattern.len() && pattern[pattern_idx] == b'*' {
             pattern_idx += 1;
         }
